@@ -166,6 +166,8 @@ structure LData (P : Program) (s : St) : Prop where
     s.tasks[i]? = some ti → s.tasks[j]? = some tj → ti.frames = [.node d1 q f1 p1] → tj.frames = [.node d2 q f2 p2] →
     p1.exec = true → p2.exec = true → i = j
   noCancel : ∀ tk ∈ s.tasks, tk.mustCancel = false
+  /-- no restart of a recurrent subgraph, so nothing is invalidated -/
+  stale  : s.stale = []
 
 structure Struct (P : Program) (depth : Node → Nat) (s : St) : Prop where
   data   : LData P s
